@@ -443,7 +443,7 @@ set_option maxRecDepth 1000000 in
 /-- the bytes of the model's notification for a sample `Send`: 7 tokens from `alice` to `pool`, payload `{}` -/
 example :
     let s : Cw20.State := { supply := 10, mint := none, balances := [("alice", 10)], allow := [], allowSp := [],
-                            version := ⟨"crates.io:cw20-base", 2, 0, 0⟩ }
+                            version := ⟨"crates.io:cw20-base", 2, 0, 0, none⟩ }
     (match Cw20.execute s ⟨1, 1⟩ "alice" (.send ⟨true, "pool"⟩ 7 "{}") with
      | .ok (_, out) => out.map (fun o => (o.contract, bytesToString (wireOfCw20 o)))
      | .error _ => []) =
